@@ -109,13 +109,13 @@ type recorder struct {
 	overflow   bool
 	curCall    string         // handler API call in progress on the loop thread (for oracle signatures)
 	ptr2fd     map[uint64]int // poll_opt: epoll data (attachment pointer) -> descriptor it was registered for
-	suppress   bool           // loop-thread system calls made by the harness's own extra actions are not part of the trace
+	suppressBy map[int64]bool // goroutines whose system calls are, for the moment, the harness's own extra actions and not part of the trace (per goroutine: loops run concurrently)
 	acceptGate chan struct{}  // when set, the loop thread waits here before accept(2)
 	client     bool
 }
 
 func newRecorder() *recorder {
-	r := &recorder{ptr2fd: map[uint64]int{}, gidM: map[int]int{}, otherG: map[int64]bool{}, idleG: map[int64]bool{}, nloops: 1, fdCid: map[int]int{}, owned: map[int]string{}, delivered: map[int][]byte{},
+	r := &recorder{suppressBy: map[int64]bool{}, ptr2fd: map[uint64]int{}, gidM: map[int]int{}, otherG: map[int64]bool{}, idleG: map[int64]bool{}, nloops: 1, fdCid: map[int]int{}, owned: map[int]string{}, delivered: map[int][]byte{},
 		handed: map[int]int{}, handedB: map[int][]byte{}, faulted: map[int]string{}, closing: map[int]bool{}, counters: map[string]int{}, canaries: map[int]*net.UDPConn{},
 		loopEpfd: -1, loopEfd: -1, accEpfd: -1}
 	r.cond = sync.NewCond(&r.mu)
@@ -354,7 +354,7 @@ func (r *recorder) Before(c *vunix.Call) {
 	if r.otherG[g] && c.Name == "epoll_wait" {
 		return
 	}
-	if g == r.accG && g != 0 && (c.Name == "accept4" || c.Name == "accept") && !r.suppress {
+	if g == r.accG && g != 0 && (c.Name == "accept4" || c.Name == "accept") && !r.suppressBy[g] {
 		// the main reactor (not modelled: its effect on the loop is the `accepted` line): transient
 		// accept4 failures; the pending connection stays queued, so a correct acceptor takes it at once
 		k := r.counters["accept0"]
@@ -369,7 +369,7 @@ func (r *recorder) Before(c *vunix.Call) {
 			}
 		}
 	}
-	if !r.onLoop(g) || r.suppress {
+	if !r.onLoop(g) || r.suppressBy[g] {
 		return
 	}
 	// ---- loop thread: observation + optional injection
@@ -607,7 +607,7 @@ func (r *recorder) After(c *vunix.Call) {
 		}
 		return
 	}
-	if !r.onLoop(g) || r.suppress {
+	if !r.onLoop(g) || r.suppressBy[g] {
 		return
 	}
 	ret := func(name string, n int, err error, extra ...string) {
